@@ -361,6 +361,43 @@ def run_cases(rng, tier, ifaces):
     return out
 
 
+def proc_query_oracle(line, case):
+    """the same contract on what `process` hands to the adapter: per answered query one write + one flush, in order"""
+    if is_crash(line):
+        return 'crash'
+    f = parse_fields(line)
+    if parse_list(f.get('errs', '[]')):
+        return f"no error expected: {f.get('errs')}"
+    evs = [e for e in parse_list(f.get('tr', '[]')) if not e.startswith('R')]
+    return run_query_oracle('out=x ev=[' + ','.join(evs) + ']', case)
+
+
+def proc_cases(rng, tier, ifaces):
+    """several answered queries per read: every response fits the N-byte buffer, all of them together do not have to"""
+    out = []
+    echo = ifaces['echo']
+    echoes = [d for d in echo.decls if d.beh == 'echo' and len(d.args) == 1 and (d.args[0] in G.INT_TYPES or d.args[0] == 'bool')]
+    for _ in range(60 if tier == 'quick' else 1500):
+        n = rng.choice([24, 32, 47, 64])
+        msgs, vals = [], []
+        for _k in range(rng.randint(2, 9)):
+            for _try in range(20):
+                d = rng.choice(echoes)
+                lits = [G.literal(rng, ty, newline=False) for ty in d.args]
+                mn, q = G.render_header(rng, d.cmd)
+                text = G.render_unit(rng, mn, q, [l[0] for l in lits]) + b'\n'
+                if len(text) <= n:
+                    break
+            else:
+                continue
+            msgs.append(text)
+            vals.append(tval_to_value(lits[0][1][1]))
+        s = b''.join(msgs)
+        for sched in ('-', ','.join(str(rng.randint(1, n)) for _ in range(len(s)))):
+            out.append(Case(f'PROC echo {n} {hx(s)} {sched}', proc_query_oracle, {'shape': len(vals), 'values': vals, 'kind': 'PROC-queries'}))
+    return out
+
+
 def corpus_cases(ifaces):
     return [Case(f'RUN echo pt {hx(b"ECHO:STR? " + bytes([39]) + b"a" + bytes([34]) + b"b" + bytes([39, 10]))}', run_query_oracle,
                  {'shape': 1, 'values': [('str', b'a"b')], 'kind': 'corpus-D6'}),
@@ -368,4 +405,4 @@ def corpus_cases(ifaces):
 
 
 def cases(tier, rng, ifaces):
-    return resp_cases(rng, tier) + run_cases(rng, tier, ifaces)
+    return resp_cases(rng, tier) + run_cases(rng, tier, ifaces) + proc_cases(rng, tier, ifaces)
